@@ -641,6 +641,7 @@ structure Rebuilt (w : World) (s d : Nat) (o : Obj) (W : World) where
   /-- position by position, a clone carries the name, value and constraint of its original … -/
   same : ∀ (j : Nat) i, o.params[j]? = some i → ∃ c, cl[j]? = some c ∧ W.heap.get c = w.heap.get i
   len : cl.length = o.params.length
+  clPos : ∀ (j : Nat) c, cl[j]? = some c → c = w.heap.next + j
   /-- … and answers to the same listener ids -/
   ids : ∀ (j : Nat) i c, o.params[j]? = some i → cl[j]? = some c → ∀ id, hasListener W c id = hasListener w i id
 
@@ -654,7 +655,8 @@ theorem rebuilt_of {w B Wf : World} {s d : Nat} {o : Obj} {cl : List ObjId} {wc 
     obtain ⟨j, i, _, _, rfl⟩ := hc.mem hcm
     exact Nat.le_add_right _ _
   have hnotcl : ∀ i, i < w.heap.next → i ∉ cl := fun i hi hm => Nat.lt_irrefl _ (Nat.lt_of_lt_of_le hi (hfresh i hm))
-  refine ⟨⟨cl, reg', objInv_rebuilt hs hc bh bl bli bln rr, ?_, ?_, ?_, ?_, ?_, hfresh, ?_, hc.len, ?_⟩⟩
+  refine ⟨⟨cl, reg', objInv_rebuilt hs hc bh bl bli bln rr, ?_, ?_, ?_, ?_, ?_, hfresh, ?_, hc.len,
+    fun j c h => (hc.pos h).choose_spec.2, ?_⟩⟩
   · funext j
     simp only [setObj_objs]
     split
